@@ -20,7 +20,7 @@ def validate(c, wd, trace, tag):
     last = None
     for devs in subsets:
         r = run_tlc("DbTrace", dev_cfg(wd, devs, tag + "-" + "".join(d[0] for d in devs)), workers=1, dfs=True,
-                    env={"TRACE": trace}, timeout=1800, name="DbTrace-%s-%d" % (tag, len(tried)))
+                    env={"TRACE": trace}, timeout=int(os.environ.get("VERIF_TLC_TIMEOUT", "1800")), name="DbTrace-%s-%d" % (tag, len(tried)))
         c.add("states", r.distinct)
         c.add("transitions", r.generated)
         tried.append(devs)
